@@ -134,7 +134,7 @@ class OptimResults(object):
         # Note: np.array(mylist, dtype=float) automatically converts None to NaN
         x = np.array(soln_dict['x'], dtype=float) if soln_dict['x'] is not None else None
         resid = np.array(soln_dict['resid'], dtype=float) if soln_dict['resid'] is not None else None
-        obj = soln_dict['obj']
+        obj = soln_dict['obj'] if soln_dict['obj'] is not None else np.nan  # None comes from to_dict(replace_nan=True)
         jacobian = np.array(soln_dict['jacobian'], dtype=float) if soln_dict['jacobian'] is not None else None
         nf = soln_dict['nf']
         nx = soln_dict['nx']
